@@ -29,7 +29,7 @@ for d in sorted(os.listdir(os.path.join(V, "seeded"))):
 head = """### 0.6 Seeded changes: which check catches which
 
 %d changes (%d of round 1, one per property; %d of rounds 2-4, directory names ending in `b` / `c` / `d`; many round-3/4 changes re-discovered earlier ones;
-%d of the TARGETED rounds 5-8, names ending in `e<n>` / `f<n>` / `g<n>` / `h<n>`: because free rounds kept returning to the same few functions, each of these agents was
+%d of the TARGETED rounds 5-9, names ending in `e<n>` / `f<n>` / `g<n>` / `h<n>` / `i<n>`: because free rounds kept returning to the same few functions, each of these agents was
 ASSIGNED a code location no earlier change had touched - different test-case generators, the payload layer of the validator, the reader side of the bit I/O,
 the deserialiser-side programs, per-sequence bookkeeping, the helpers of the header generator, ...), each written by a fresh
 sub-agent that saw only the property text and a scratch worktree, each confirmed (demo fails with / passes without the
@@ -39,7 +39,7 @@ catches the change and, where the FIRST version of the check missed it or could 
 failing input, what was strengthened: round 1 — C05, C06, C10 (by C01), C20, C21, C03; round 2 — C15b, C25b, C10b and C06b (missed),
 C03b (missed by C03, caught by C15), C14b and C08b (no failing input at first), C26b (the check hung); round 3 — C28c, C03c, C08c (missed),
 C16c (missed by C16, caught by C15), C19c (no failing input at first); round 4 — C20d (missed: the writer's seek was not modelled), C01d (no failing input at first);
-targeted rounds 5-8 — missed at first: C07e1, C05e3, C05e5, C08e1, C16e1 (which also exposed defect F11), C19f1, C02f1, C02f2, C01f1, C27f1, C04f1, C16f2, C25g2, C20g1, C08g1, C22g1, C01g1, C16g1, C05g1, C09h1, C17h1, C23h1, C24h1; no failing input at first: C17f1, C20f1, C23f1, C17g1, C22h1 (and C20g1 after the model had the operation).
+targeted rounds 5-9 — missed at first: C07e1, C05e3, C05e5, C08e1, C16e1 (which also exposed defect F11), C19f1, C02f1, C02f2, C01f1, C27f1, C04f1, C16f2, C25g2, C20g1, C08g1, C22g1, C01g1, C16g1, C05g1, C09h1, C17h1, C23h1, C24h1, C26i1, C28i1, C08i1, C05i1; no failing input at first: C17f1, C20f1, C23f1, C17g1, C22h1, C20i1 (and C20g1 after the model had the operation).
 
 | id | change | needs | caught by |
 |---|---|---|---|
